@@ -649,8 +649,12 @@ func (x *Exec) strLit(s string) Val {
 	n := fmt.Sprintf("str!%d", len(x.u.strLits))
 	x.u.decls = append(x.u.decls, fmt.Sprintf("(declare-const %s GoString)", n))
 	x.u.fact(fmt.Sprintf("(= (strlen %s) %d)", n, len(s)))
-	for o, on := range x.u.strLits {
-		_ = o
+	var others []string
+	for _, on := range x.u.strLits {
+		others = append(others, on)
+	}
+	sort.Strings(others)
+	for _, on := range others {
 		x.u.fact("(not (= " + n + " " + on + "))")
 	}
 	x.u.strLits[s] = n
@@ -750,10 +754,15 @@ func (x *Exec) globalVar(o *types.Var) Val {
 	if types.Identical(o.Type(), types.Universe.Lookup("error").Type()) {
 		x.u.fact("(> " + n + " 0)")
 		x.u.fact("(< " + n + " " + x.next0 + ")") // allocated before the function was entered
+		var sentinels []string
 		for oo, ov := range x.globals {
 			if types.Identical(oo.Type(), o.Type()) {
-				x.u.fact("(not (= " + n + " " + ov.T + "))")
+				sentinels = append(sentinels, ov.T)
 			}
+		}
+		sort.Strings(sentinels)
+		for _, t := range sentinels {
+			x.u.fact("(not (= " + n + " " + t + "))")
 		}
 	}
 	x.globals[o] = v
@@ -953,6 +962,7 @@ func (x *Exec) placeKeys(pkg *packages.Package, place string) []string {
 				ks = append(ks, k)
 			}
 		}
+		sort.Strings(ks)
 		return ks
 	}
 	if strings.HasPrefix(place, "map[") {
